@@ -18,7 +18,7 @@ from __future__ import annotations
 
 import random
 
-from harness import data, sky
+from harness import data, par, sky
 from harness.yawenv import scratch
 
 
@@ -54,12 +54,14 @@ def run(ctx) -> None:
     ctx.rule = ("all placements of 2(3) binned objects over the 7 redshift cells (below, on e0, in bin 1, on e1, in bin 2, on e2, above) x weights x "
                 "4 slots, both closed sides, enumerated by TLC; non-trivial = at least one object on an edge or outside")
     F = families(quick)
-    nmax = 170 if quick else 1500
+    nmax = 400 if quick else 3000
     with scratch("c10_") as root:
         n = 0
-        for fam, sc in F.items():
+        for sc in F.values():
             sc.derive()
-            res, scen = sky.model_check(ctx, f"Sky ideal, family {fam}", sc, ["TotalsAgree", "MetaDescribesPatch"])
+        outs = sky.model_check_many(ctx, [(f"Sky ideal, family {fam}", sc, ["TotalsAgree", "MetaDescribesPatch"], {}) for fam, sc in F.items()])
+        jobs = []
+        for (fam, sc), (res, scen) in zip(F.items(), outs):
             ctx.require(res.ok, f"Sky ideal ({fam}) violated: {res.error_name}")
             ctx.exhaustive = True
             # stratify by the set of cells used
@@ -72,26 +74,40 @@ def run(ctx) -> None:
             ctx.extra.setdefault("families", {})[fam] = dict(scenarios=len(scen), cell_combinations=len(by), realised=len(chosen))
             for exp in chosen:
                 n += 1
-                cc = cell_class(exp, sc)
-                empty_patch = any(all(sky_bin(sc, o["z"]) == 0 for o, a in zip(exp["ref"], exp["assign1"]) if a == i + 1) for i in range(len(sc.centres)))
-                pclass = "patch_without_object_in_any_bin" if empty_patch else "every_patch_has_binned_objects"
-                ctx.evaluated(1, (fam, repr(exp["ref"])) if cc != "interior" else None)
-                ctx.validated(1)
-                detail = dict(family=fam, closed=sc.closed, ref=[dict(o) for o in exp["ref"]], cells=cc, expected_binw=sky.nested(exp["binw"]))
+                jobs.append((fam, sc, exp, str(root / f"job{n}")))
+        par.pmap(ctx, realise_job, jobs)
+        for fam, sc, exp, _ in jobs:
+            if len(ctx.samples) < 4 and cell_class(exp, sc) != "interior":
+                ctx.sample(dict(family=fam, closed=sc.closed, ref=[dict(o) for o in exp["ref"]], cells=cell_class(exp, sc), expected_binw=sky.nested(exp["binw"])))
+
+
+def realise_job(ctx, job) -> None:
+    import shutil
+    from pathlib import Path
+
+    fam, sc, exp, work = job
+    work = Path(work)
+    cc = cell_class(exp, sc)
+    empty_patch = any(all(sky_bin(sc, o["z"]) == 0 for o, a in zip(exp["ref"], exp["assign1"]) if a == i + 1) for i in range(len(sc.centres)))
+    pclass = "patch_without_object_in_any_bin" if empty_patch else "every_patch_has_binned_objects"
+    ctx.evaluated(1, (fam, repr(exp["ref"])) if cc != "interior" else None)
+    ctx.validated(1)
+    detail = dict(family=fam, closed=sc.closed, ref=[dict(o) for o in exp["ref"]], cells=cc, expected_binw=sky.nested(exp["binw"]))
+    try:
+        try:
+            obs = sky.realise(sc, exp, work, "equator", want=("trees", "hist", "cross"))
+            for stage in ("trees", "hist", "cross"):
+                judge(ctx, sc, exp, obs, stage, cc, pclass, detail)
+        except Exception:  # noqa: BLE001  -> find out which stage raises
+            for stage in ("trees", "hist", "cross"):
                 try:
-                    obs = sky.realise(sc, exp, root / f"s{n % 6}", "equator", want=("trees", "hist", "cross"))
-                    for stage in ("trees", "hist", "cross"):
-                        judge(ctx, sc, exp, obs, stage, cc, pclass, detail)
-                except Exception:  # noqa: BLE001  -> find out which stage raises
-                    for stage in ("trees", "hist", "cross"):
-                        try:
-                            obs = sky.realise(sc, exp, root / f"s{n % 6}", "equator", want=(stage,))
-                        except Exception as exc:  # noqa: BLE001
-                            ctx.violation(f"C10|{stage}|closed={sc.closed}|{pclass}|raises_{type(exc).__name__}", dict(detail, error=repr(exc)[:200]))
-                            continue
-                        judge(ctx, sc, exp, obs, stage, cc, pclass, detail)
-                if len(ctx.samples) < 4 and cc != "interior":
-                    ctx.sample(detail)
+                    obs = sky.realise(sc, exp, work, "equator", want=(stage,))
+                except Exception as exc:  # noqa: BLE001
+                    ctx.violation(f"C10|{stage}|closed={sc.closed}|{pclass}|raises_{type(exc).__name__}", dict(detail, error=repr(exc)[:200]))
+                    continue
+                judge(ctx, sc, exp, obs, stage, cc, pclass, detail)
+    finally:
+        shutil.rmtree(work, ignore_errors=True)
 
 
 def sky_bin(sc, c):
